@@ -1,4 +1,5 @@
 """C09 - setter, list and section API behaves as a simple typed store (structural clauses)."""
+import re
 from .. import sym, parsermodel as pm, failpaths as fp, report
 from . import c10
 
@@ -312,9 +313,9 @@ def typed_members(c, chk, rid):
                 neg = d.startswith('not(')
                 if neg:
                     d = d[4:-1]
-                if '->type eq ' in d and (t != neg):
+                if re.search(r'(->|\.)type eq ', d) and (t != neg):
                     types.add(d.split(' eq ')[1])
-                if '->type ne ' in d and (t == neg):
+                if re.search(r'(->|\.)type ne ', d) and (t == neg):
                     types.add(d.split(' ne ')[1])
             used = {}
 
